@@ -222,7 +222,7 @@ class SimulatorWorkerThread(Thread):
                 # when end_replication() is called by a handler that is 
                 # executed by step(), step() has to finish first
                 if (self._job._replication_state == ReplicationState.ENDING
-                        and not self._job.is_starting_or_running()):
+                        and not self._job._stepping):
                     with self._job._state_lock:
                         self._job._replication_state = ReplicationState.ENDED
                         self._job._run_state = RunState.ENDED
@@ -267,6 +267,8 @@ class Simulator(EventProducer, SimulatorInterface, Generic[TIME]):
         # guards the run_state transitions that the calling thread and the
         # run thread can both make (stop request versus start / natural end)
         self._state_lock = threading.Lock()
+        # True while step() executes an event on the calling thread
+        self._stepping: bool = False
         
     @property
     def name(self) -> str:
@@ -431,6 +433,7 @@ class Simulator(EventProducer, SimulatorInterface, Generic[TIME]):
         if self._simulator_time >= self._replication.end_sim_time:
             raise DSOLError("cannot start: simulator_time > run length")
         try:
+            self._stepping = True
             # change the state before notifying, so a listener cannot start
             # the simulator (again) from inside the notification
             self._run_state = RunState.STARTED
@@ -447,6 +450,7 @@ class Simulator(EventProducer, SimulatorInterface, Generic[TIME]):
             self.fire_timed(self._simulator_time,
                             Simulator.STOP_EVENT, None)
             self._run_state = RunState.STOPPED
+            self._stepping = False
             if self._replication_state == ReplicationState.ENDING:
                 # end_replication() was called during this step
                 self.__worker.wakeup()
